@@ -301,6 +301,50 @@ def correspondences(tier, rng):
         r = res(go)
         return r
     out.append(Corr("component_decompile", dcs, impl_comp_decompile))
+    # kern format 0: both headers, values at the int16 ends, glyph IDs at the uint16 ends
+    from fontTools.ttLib.tables._k_e_r_n import KernTable_format_0
+    from lib import ser as S_
+    class _KF:                                              # the font as the kern codec sees it
+        def __init__(self, n): self.order = ["k%d" % i for i in range(n)]
+        def getGlyphOrder(self): return self.order
+        def getReverseGlyphMap(self): return {nm: i for i, nm in enumerate(self.order)}
+        def getGlyphID(self, name): return int(name[1:])
+        def getGlyphName(self, gid): return "k%d" % gid
+    kfont = _KF(40)
+    kcs = []
+    for _ in range(N(tier, 500, 6000)):
+        apple = rng.chance(40); cov = rng.choice([0, 1, 255] + ([256] if rng.chance(4) else [])); ti = rng.choice([0, 7, 65535] + ([65536] if rng.chance(4) else []))
+        pairs = {}
+        for _p in range(rng.randint(0, 12)):
+            l_, r_ = rng.choice([0, 1, 39, rng.below(40), 65535, 300] + ([65536] if rng.chance(2) else [])), rng.choice([0, 1, 39, rng.below(40), 65535])
+            pairs[(l_, r_)] = rng.choice([0, 1, -1, 32767, -32768, -32767, rng.randint(-32768, 32767)] + ([32768, -32769] if rng.chance(3) else []))
+        items = [(l_, r_, v_) for (l_, r_), v_ in pairs.items()]; rng.shuffle(items)
+        kcs.append((apple, cov, ti, items))
+    def mk_kern(x):
+        apple, cov, ti, items = x
+        st = KernTable_format_0(apple=apple); st.coverage = cov; st.tupleIndex = ti if apple else None
+        st.kernTable = {("k%d" % l_, "k%d" % r_): v_ for l_, r_, v_ in items}
+        return st
+    def impl_kern_compile(x): return res(lambda: list(mk_kern(x).compile(kfont)))
+    out.append(Corr("kern0_compile", kcs, impl_kern_compile, enc=lambda x: (x[0], x[1], x[2], [((l_, r_), v_) for l_, r_, v_ in x[3]])))
+    kds = []
+    for x in kcs[: len(kcs) // 2]:
+        r = impl_kern_compile(x)
+        if isinstance(r, Err): continue
+        b = list(r.v); r_ = rng.below(7)
+        if r_ == 0: b = b[:rng.randint(0, len(b) - 1)]
+        elif r_ == 1 and len(b) > 2: b[rng.below(min(len(b), 14))] = rng.below(256)
+        elif r_ == 2: b += [rng.below(256) for _ in range(rng.randint(1, 7))]
+        kds.append((x[0], b))
+    def impl_kern_decompile(x):
+        apple, b = x
+        def go():
+            st = KernTable_format_0(apple=apple); st.decompile(bytes(b), kfont)
+            return ((st.coverage, Opt(st.tupleIndex, some=st.tupleIndex is not None)), [((int(l_[1:]), int(r_[1:])), v_) for (l_, r_), v_ in st.kernTable.items()])
+        try: return Ok(go())
+        except (StopIteration, ValueError): return Err(S_.INDEX)           # the pair data end before the announced number of pairs
+        except Exception as e: return Err(S_.exc_code(e))
+    out.append(Corr("kern0_decompile", kds, impl_kern_decompile))
     return out
 
 # ------------------------------------------------------------------ sweeps
